@@ -394,6 +394,20 @@ def handle (st : State) (cmd : String) (inp obsToks : List String) : State × St
         useMortality := useM, mortalitySched := schM, useSpreadRates := useR, rateSched := schR, useQuarantine := useQ, quarantineSched := schQ }
       ({ st with cfg := cfg, rasterEntry := entry == "rasters" }, "ok")
     | _, _, _, _, _, _, _, _, _, _, _ => (st, "BADLINE cfg")
+  -- utils.hpp find_suitable_cells (one raster / several rasters): cells with a positive value, row-major
+  | "hp.findsuit", rowsTok :: colsTok :: rest =>
+    match parseNat? rowsTok, parseNat? colsTok, segments rest, segments obsToks with
+    | some rows, some cols, [_, aT, bT], [_, oneT, bothT] =>
+      match parseInts? aT, parseInts? bT, oneT.mapM pair?, bothT.mapM pair? with
+      | some a, some b, some one, some both =>
+        let cellsOf (f : Nat → Bool) : List (Int × Int) :=
+          (List.range (rows * cols)).filterMap fun k => if f k then some (((k / cols : Nat) : Int), ((k % cols : Nat) : Int)) else none
+        let e1 := cellsOf fun k => decide (a[k]! > 0)
+        let e2 := cellsOf fun k => decide (a[k]! > 0) || decide (b[k]! > 0)
+        (st, if one != e1 then s!"MISMATCH hp.findsuit one-raster model={e1}"
+             else if both != e2 then s!"MISMATCH hp.findsuit several-rasters model={e2}" else "ok")
+      | _, _, _, _ => (st, "BADLINE")
+    | _, _, _, _ => (st, "BADLINE")
   | "hp.plan", [stepTok] =>
     -- C05, state-based and independent of the trace: in a step that is not a spread step no exposed
     -- cohort ages and nothing matures (the step began with `stepStart`, it ends with `cells`)
